@@ -59,6 +59,11 @@ bool DyndepLoader::LoadDyndeps(Node* node, DyndepFile* ddf,
       return false;
     }
 
+    // An edge that lists the dyndep file as an input more than once is among
+    // the out-edges more than once; it is updated once.
+    if (ddi->second.used_)
+      continue;
+
     ddi->second.used_ = true;
     Dyndeps const& dyndeps = ddi->second;
     if (!UpdateEdge(edge, &dyndeps, err)) {
